@@ -7,6 +7,7 @@ import (
 
 	"github.com/taurusgroup/multi-party-sig/pkg/ecdsa"
 	"github.com/taurusgroup/multi-party-sig/pkg/taproot"
+	"github.com/taurusgroup/multi-party-sig/verif/fx"
 	"github.com/taurusgroup/multi-party-sig/verif/ref"
 	"github.com/taurusgroup/multi-party-sig/verif/vk"
 )
@@ -119,7 +120,17 @@ func c16ECDSA(t *vk.T, rounds int) {
 			sm := new(big.Int).Mod(p.s, ref.Q)
 			want := ref.ECDSAVerifyPoint(p.X, p.dig, p.R, sm)
 			sig := ecdsa.Signature{R: LibPoint(p.R), S: LibScalar(sm)}
-			got := sig.Verify(LibPoint(p.X), p.dig)
+			lx := LibPoint(p.X)
+			digIn := append([]byte{}, p.dig...)
+			got := sig.Verify(lx, digIn)
+			// verification is a pure function of its inputs: same verdict when repeated, inputs untouched
+			if again := sig.Verify(lx, digIn); again != got || !bytes.Equal(digIn, p.dig) || IntOf(sig.S).Cmp(sm) != 0 {
+				t.Violation("ecdsa.Verify|not-repeatable|"+p.name, "a second Verify of the same objects says %v after %v (or the inputs were modified): X=%x digest=%x", again, got, p.X.Compress(), p.dig)
+			} else if rp, err := fx.PtOf(sig.R); !p.R.Inf && (err != nil || !rp.Equal(p.R)) {
+				t.Violation("ecdsa.Verify|modifies-signature|"+p.name, "Verify changed the signature's R")
+			} else if xp, err := fx.PtOf(lx); !p.X.Inf && (err != nil || !xp.Equal(p.X)) {
+				t.Violation("ecdsa.Verify|modifies-key|"+p.name, "Verify changed the public key object")
+			}
 			t.Obs("evaluations", 1)
 			if want {
 				t.Obs("ecdsa_ref_accept", 1)
